@@ -169,6 +169,16 @@ func (m *c12mon) Check(s *sim.Sim, st *sim.Step) []*sim.Violation {
 			}
 		}
 	}
+	// the code that confirms an enrolment is used up by it
+	if a.Kind == "totp_confirm" && rec.Kind == "http" && rec.FaultsFired == 0 {
+		if pid := rec.SessIn["uid"]; pid != "" {
+			b, af := rec.Before.Users[pid], rec.After.Users[pid]
+			if b != nil && af != nil && af.TOTPSecretKey != "" && af.TOTPSecretKey != b.TOTPSecretKey {
+				m.lastTOTP[pid] = digitsOf(a.Secret)
+				m.stats.Count("totp-enrolment-code-recorded")
+			}
+		}
+	}
 	// remove with a recovery code: same one-time rules
 	if (a.Kind == "totp_remove" || a.Kind == "sms_remove") && a.Secret2 != "" {
 		U := rec.SessIn["uid"]
@@ -343,6 +353,19 @@ var c12Templates = []sim.Template{
 		}
 		return []*sim.Action{act("login", 0, v, "ok"), act("otp_add", 0, -9, ""), act("faultnext", 1, -9, "", "op", "Save"), act("otp_login", 1, v, "ok"),
 			act("visit", 1, -9, "", "route", "/protected/bare"), act("otp_login", 2, v, "spent"), act("otp_login", 2, v, "ok")}
+	}},
+	{Name: "enrolment-code-replayed-at-the-next-login", F: func(s *sim.Sim) []*sim.Action {
+		// the code that confirmed the TOTP enrolment is a used code: the login that follows within the same
+		// period cannot be completed with it again (replay-protecting user type)
+		if !s.Cfg.Has2FA("totp") || s.Cfg.TwoFAEmail || !s.Cfg.Has("auth") {
+			return nil
+		}
+		v := findAcct(s, func(u *world.User) bool { return u.Confirmed && u.TOTPSecretKey == "" && u.SMSPhone == "" })
+		if v < 0 {
+			return nil
+		}
+		return []*sim.Action{act("login", 0, v, "ok"), act("totp_setup", 0, -9, ""), act("totp_confirm", 0, -9, "ok"), act("logout", 0, -9, ""),
+			act("login", 1, v, "ok"), act("totp_validate", 1, -9, "cur"), act("totp_validate", 1, -9, "cur")}
 	}},
 	{Name: "totp-same-code-in-another-spelling", F: func(s *sim.Sim) []*sim.Action {
 		// the code that just completed a login, presented again with surrounding whitespace or a separator
